@@ -346,6 +346,18 @@ int websocket_compress_bounded(const struct websocket *s, uint8_t *dest, size_t 
 		}
 		return length;
 	}
+	if (length == 0) {
+		/*
+		 * zlib refuses a second flush without new input (Z_BUF_ERROR). An
+		 * empty message is an empty stored block without its tail (RFC 7692,
+		 * 7.2.3.6); the deflater is byte aligned and its window unaffected.
+		 */
+		if (unlikely(dest_size < 1)) {
+			return -1;
+		}
+		dest[0] = 0x00;
+		return 1;
+	}
 	int ret;
 	z_stream *strm = *(s->extension_compression.strm_comp);
 	size_t have;
